@@ -740,6 +740,17 @@ func (fc *FCtx) ghostNames(st *State) []string {
 
 type loopSpecials map[string]Val
 
+// withOuter: a range loop nested in the body of another range loop also sees the enclosing loop's specials, under the
+// names #i_out, #coll_out, ... (so an inner invariant can say "everything the outer loop has passed so far")
+func (fc *FCtx) withOuter(sp loopSpecials) loopSpecials { return fc.withOuterOf(fc.curSpecials, sp) }
+
+func (fc *FCtx) withOuterOf(outer, sp loopSpecials) loopSpecials {
+	for k, v := range outer {
+		sp[k+"_out"] = v
+	}
+	return sp
+}
+
 func (fc *FCtx) loopSpec(ord int) *LoopSpec {
 	if len(fc.frames) == 1 && fc.C != nil {
 		return fc.C.Loops[ord]
@@ -915,7 +926,7 @@ func (fc *FCtx) execRange(s *ast.RangeStmt, st *State, label string) *Flow {
 		n = app(fc.mapCard(coll.S), coll.T)
 		st.assume(fmt.Sprintf("(>= %s 0)", n))
 	}
-	sp0 := loopSpecials{"#i": Val{T: "0", S: SInt}, "#n": Val{T: n, S: SInt}, "#coll": coll}
+	sp0 := fc.withOuter(loopSpecials{"#i": Val{T: "0", S: SInt}, "#n": Val{T: n, S: SInt}, "#coll": coll})
 	visTerm := func(vis string) Val {
 		return Val{T: app("mk_"+coll.S.Name, vis, mpVal(coll)), S: coll.S, GoT: coll.GoT}
 	}
@@ -959,7 +970,7 @@ func (fc *FCtx) execRange(s *ast.RangeStmt, st *State, label string) *Flow {
 				}
 			}
 			prevSp := fc.curSpecials
-			fc.curSpecials = loopSpecials{"#i": Val{T: fc.U.Fresh("dry_i", SInt), S: SInt}, "#n": Val{T: n, S: SInt}, "#coll": coll}
+			fc.curSpecials = fc.withOuterOf(prevSp, loopSpecials{"#i": Val{T: fc.U.Fresh("dry_i", SInt), S: SInt}, "#n": Val{T: n, S: SInt}, "#coll": coll})
 			f := fc.execBlock(s.Body.List, d)
 			fc.curSpecials = prevSp
 			ends := append([]*State{}, f.normal...)
@@ -977,7 +988,7 @@ func (fc *FCtx) execRange(s *ast.RangeStmt, st *State, label string) *Flow {
 	fc.havoc(h, lv)
 	gi := fc.U.Fresh("ri", SInt)
 	h.assume(fmt.Sprintf("(and (<= 0 %s) (<= %s %s))", gi, gi, n))
-	sp := loopSpecials{"#i": Val{T: gi, S: SInt}, "#n": Val{T: n, S: SInt}, "#coll": coll}
+	sp := fc.withOuter(loopSpecials{"#i": Val{T: gi, S: SInt}, "#n": Val{T: n, S: SInt}, "#coll": coll})
 	if coll.S.Kind == KMap {
 		visHead = fc.U.Fresh("vis", &Sort{Name: fmt.Sprintf("(Array %s Bool)", coll.S.Key.Name), Kind: KOpaque})
 		// visited keys are keys of the map; there are #i of them
@@ -1058,7 +1069,7 @@ func (fc *FCtx) execRange(s *ast.RangeStmt, st *State, label string) *Flow {
 		delete(fb.cont, label)
 	}
 	if e := fc.merge(ends); e != nil {
-		sp1 := loopSpecials{"#i": Val{T: fmt.Sprintf("(+ %s 1)", gi), S: SInt}, "#n": Val{T: n, S: SInt}, "#coll": coll}
+		sp1 := fc.withOuter(loopSpecials{"#i": Val{T: fmt.Sprintf("(+ %s 1)", gi), S: SInt}, "#n": Val{T: n, S: SInt}, "#coll": coll})
 		if coll.S.Kind == KMap {
 			sp1["#visited"] = visTerm(visNext)
 		}
@@ -1298,6 +1309,11 @@ func (fc *FCtx) execGo(s *ast.GoStmt, st *State) *Flow {
 
 func (fc *FCtx) execSend(s *ast.SendStmt, st *State) *Flow {
 	v := fc.eval(s.Value, st)
+	// `//@ on_send <pkg.Func>`: one particular schedule of the consumer of this channel is modelled - it takes the value and
+	// runs to completion at the moment of the send (its contract is applied here with the sent value as first argument)
+	if fc.C != nil && fc.C.Flags["on_send"] != "" {
+		fc.applyConsumer(modPath+"/"+fc.C.Flags["on_send"], v, st)
+	}
 	if g, ok := st.ghost["ChanSent"]; ok {
 		st.ghost["ChanSent"] = Val{T: fmt.Sprintf("(+ %s 1)", g.T), S: g.S}
 		// every ghost named ChanLast* whose sort is the sent value's sort records the last value sent
@@ -1471,4 +1487,44 @@ func (fc *FCtx) bitAssign(be *ast.BinaryExpr, s *ast.AssignStmt, st *State) {
 	st.assume(fc.U.WF(v))
 	fc.note("bitwise " + be.Op.String() + " modelled as an uninterpreted function of its operands")
 	fc.assignTo(s.Lhs[0], v, st)
+}
+
+func (fc *FCtx) applyConsumer(key string, v Val, st *State) {
+	cc := fc.E.cs.Funcs[key]
+	fi := fc.E.funcs[key]
+	if cc == nil || fi == nil || fi.Sig.Params().Len() == 0 {
+		oos("on_send: consumer %s has no contract (or takes no argument)", key)
+	}
+	fc.assumed["consumer "+shortPkg(key)+" of the channel runs to completion at the moment of the send (one schedule; others are not modelled)"] = true
+	names := map[string]Val{}
+	if r := fi.Sig.Recv(); r != nil {
+		rs := fc.U.SortOf(r.Type())
+		rn := r.Name()
+		if rn == "" || rn == "_" {
+			rn = cc.RecvName
+		}
+		names[rn] = Val{T: fc.U.Fresh("consumer", rs), S: rs, GoT: r.Type()}
+	}
+	for i := 0; i < fi.Sig.Params().Len(); i++ {
+		p := fi.Sig.Params().At(i)
+		if i == 0 {
+			names[p.Name()] = fc.coerce(v, p.Type())
+			continue
+		}
+		ps := fc.U.SortOf(p.Type())
+		pv := Val{T: fc.U.Fresh("carg", ps), S: ps, GoT: p.Type()}
+		st.assume(fc.U.WF(pv))
+		names[p.Name()] = pv
+	}
+	pre := st.clone()
+	for _, m := range cc.Modifies {
+		if g, ok := st.ghost[m]; ok {
+			nv := Val{T: fc.U.Fresh("g_"+m, g.S), S: g.S, GoT: g.GoT}
+			st.ghost[m] = nv
+		}
+	}
+	for _, en := range cc.Ensures {
+		env := &Env{fc: fc, st: st, old: pre, names: names, oldNames: names, pkg: fc.E.pkgOfContract(cc)}
+		st.assume(fc.specBool(en.Expr, env))
+	}
 }
